@@ -205,3 +205,36 @@ func VerifC05KeyInjective() {
 	verifrt.Assert("c05.key-functional", verifrt.Implies(same, verifrt.EqStr(ka, kb)))
 	verifrt.Reach("c05.inj.end")
 }
+
+// VerifC05ManyKeys: tag sets larger than any small-size fast path of the key writer: 16 keys on
+// the left, 2 on the right, one of which re-defines a left key, values symbolic (one byte);
+// every rotation of the iteration order of both maps.  Rightmost wins, the key is the
+// reference rendering of the merged map and agrees with the public function on the merged map.
+func VerifC05ManyKeys() {
+	verifrt.RotateMaps(1)
+	const n = 16
+	var l []kv
+	for i := 0; i < n; i++ {
+		l = append(l, kv{"k" + string(rune('a'+i)), verifrt.String("l.val", 1)})
+	}
+	over := verifrt.Choose("overridden", n)
+	r := []kv{{l[over].k, verifrt.String("r.val", 1)}, {"kz", verifrt.String("r.val", 1)}}
+	lm, rm := toMap(l), toMap(r)
+	var merged []kv
+	for i, e := range l {
+		if i != over {
+			merged = append(merged, e)
+		}
+	}
+	merged = append(merged, r...)
+	got := keyForPrefixedStringMaps("p", lm, rm)
+	verifrt.RotateMaps(0)
+	want := refKey("p", merged)
+	verifrt.Assert("c05.many-keys.key-len", len(got) == len(want))
+	if len(got) == len(want) {
+		verifrt.Assert("c05.many-keys.key-equals-reference(rightmost-wins)", got == want)
+	}
+	pub := KeyForPrefixedStringMap("p", toMap(merged))
+	verifrt.Assert("c05.many-keys.key-agrees-with-merged-map", len(pub) == len(got) && pub == got)
+	verifrt.Reach("c05.manykeys.end")
+}
